@@ -69,6 +69,11 @@ CHECKS = {
             'For every path inside the bounds and every mapping / endpoint / wrapped-app / exists combination in the tables: the request is routed to the engine exactly when the path is under the endpoint, '
             'to a static file exactly when a mapping matches and the file exists, else to the wrapped app or 404; the path handed to open() is the mapped file or lies (after lexical normalisation) beneath the mapped directory; lifespan events are answered per protocol.',
             'Trusted: CrossHair string models, z3, the file-system stubs. Fully symbolic tails are exhausted only for mappings without a \'\' or \'/\' key (CrossHair realises characters in str.rsplit); the others are covered by the segment tables.', '§3 C20'),
+    'C06': (SIM + '; frames on the upgrade socket chosen by solver-enumerated selectors from a table (correct, wrong type/payload, oversize, empty, binary, undecodable, close, transport error) x poll pending x sends before/during x transports setting; each selector tuple runs the scenario concretely',
+            'For every frame sequence of length <= 2 from the table, on both servers (asyncio through the real ASGI WebSocket driver): the session is on WebSocket '
+            'iff the frames were PING probe then UPGRADE; after any other sequence everything queued is delivered by polling, in order and once, and a later correct '
+            'handshake succeeds; a completed upgrade refuses a second one without disturbing the first socket; a disallowed transport is never used.',
+            'Trusted: CrossHair (selector enumeration), z3, the simulated environment.', '§3 C06'),
 }
 
 NOT_BUILT = 'check not built yet in this round (see DESIGN.md §8 build order); not claimed until it runs'
